@@ -70,7 +70,8 @@ def rule_p1(ctx, pl: Pipeline) -> None:
                 key = n.value.slice
                 is_cols = isinstance(key, ast.Constant) or (isinstance(key, (ast.List, ast.Tuple)) and all(isinstance(e, ast.Constant) for e in key.elts))
                 col_param = isinstance(key, ast.Name) and key.id in f.params or (isinstance(key, ast.Attribute) and key.attr.endswith("_col"))
-                if any(unparse(t) in frames for t in n.targets) and not is_cols and not col_param:
+                col_expr = ".columns" in unparse(key)
+                if any(unparse(t) in frames for t in n.targets) and not is_cols and not col_param and not col_expr:
                     ctx.instance("C05-P1", "%s: %s" % (f.name, unparse(n)[:70]), f.loc(n), ok=False, klass="mask-filter")
                     ctx.finding(
                         "C05-P1",
@@ -200,14 +201,15 @@ def rule_p3(ctx) -> None:
                 broad = ht in ("Exception", "BaseException")
                 reraises = any(isinstance(x, ast.Raise) for x in ast.walk(h))
                 # does the try body produce the rows?
-                produces = [x for x in ast.walk(ast.Module(body=t.body, type_ignores=[])) if isinstance(x, ast.Call) and "__run_pipeline" in unparse(x.func)]
+                produces = [x for x in ast.walk(ast.Module(body=t.body, type_ignores=[])) if isinstance(x, ast.Call) and unparse(x.func).split(".")[-1] in ("__run_pipeline", "__rebalance_batch")]
                 if not produces:
                     continue
                 # rows variable assigned in the body; does the handler supply a substitute?
                 row_vars = set()
                 for x in t.body:
                     if isinstance(x, ast.Assign) and any(c in ast.walk(x.value) for c in produces):
-                        row_vars |= {tg.id for tg in x.targets if isinstance(tg, ast.Name)}
+                        for tg in x.targets:
+                            row_vars |= {y.id for y in ast.walk(tg) if isinstance(y, ast.Name)}
                 substitutes = any(isinstance(x, ast.Assign) and any(isinstance(tg, ast.Name) and tg.id in row_vars for tg in x.targets) for x in ast.walk(h))
                 ok = reraises or substitutes or not broad
                 ctx.instance("C05-P3", "%s: except %s around the pipeline call (re-raises: %s, substitutes rows: %s)" % (f.name, ht, reraises, substitutes), f.loc(h), ok=ok)
